@@ -282,6 +282,7 @@ static hc::Outcome run_one(hc::RunSpec& rs) {
     RefKey k{model, c.i("mp"), c.i("nosym") != 0, (int)std::max(1L, c.i("beta"))};
     c.set("beta", k.beta); c.set("nosym", k.nosym);
 
+    hc::announce(rs);
     hc::Outcome oc;
     // reference values for every quadruple in every orbit the history touches
     std::set<std::string> need;
